@@ -478,11 +478,14 @@ Definition erase (o : fsop) : obsop :=
   | OpCreate p _ => ObsCreate p | OpWrite p _ => ObsWrite p | OpSync p _ => ObsSync p
   | OpClose p _ => ObsClose p | OpRename a b _ => ObsRename a b | OpRemove p _ => ObsRemove p
   end.
+(* generated names of the form "<temp:pattern>" (os.CreateTemp) match any observed name *)
+Definition path_match (g o : path) : bool := String.prefix "<temp:" g || String.eqb g o.
+(* first argument: generated, second: observed *)
 Definition obsop_eqb (a b : obsop) : bool :=
   match a, b with
   | ObsCreate p, ObsCreate q | ObsWrite p, ObsWrite q | ObsSync p, ObsSync q
-  | ObsClose p, ObsClose q | ObsRemove p, ObsRemove q => String.eqb p q
-  | ObsRename a1 b1, ObsRename a2 b2 => String.eqb a1 a2 && String.eqb b1 b2
+  | ObsClose p, ObsClose q | ObsRemove p, ObsRemove q => path_match p q
+  | ObsRename a1 b1, ObsRename a2 b2 => path_match a1 a2 && path_match b1 b2
   | _, _ => false
   end.
 Fixpoint obs_eqb (a b : list obsop) : bool :=
